@@ -441,7 +441,6 @@ func ruleA6(c *Ctx) {
 	}
 }
 
-
 // visitorTestsExpiry: the call hands a closure (a visitor for `forEach`) to the reader, and that closure tests expiry on
 // what it is given.
 func visitorTestsExpiry(call *ssa.Call, isExp map[*ssa.Function]bool) bool {
